@@ -10,7 +10,7 @@ ID = "C01"
 LEVEL = "exploration"
 LEVEL_TEXT = (
     "Bounded-exhaustive plus random search against a brute-force optimum: every plane shape/leaf assignment up to "
-    "3x3 (quick) or 4x4 (thorough) leaves over a cost grid, and thousands of Hypothesis cases up to 5 object / 6 species "
+    "4x3 (quick) or 4x4 (thorough) leaves over a cost grid, and thousands of Hypothesis cases up to 5 object / 6 species "
     "leaves; finds any wrong optimum, invalid output, exception or enumeration error inside those bounds, says nothing beyond them."
 )
 LEVEL_NOTE = (
@@ -40,8 +40,9 @@ BUDGET = {
     "quick": {"random": 3000},
     "thorough": {"random": 60000},
 }
+FUZZ = {"thorough": {"runs": 40000, "max_time": 900}}
 EXHAUSTIVE_RULE = {
-    "quick": "all plane binary shapes, object<=3 x species<=3 leaves, all leaf assignments, costs {0,1,2}^3 (spe,dup,floss) x hgt {0,1,inf} inside the region",
+    "quick": "all plane binary shapes, object<=4 x species<=3 leaves, all leaf assignments, costs {0,1,2}^3 (spe,dup,floss) x hgt {0,1,inf} inside the region",
     "thorough": "object<=4 x species<=4 leaves, costs {0..3}^3 x hgt {0,1,2,inf} inside the region",
 }
 EXHAUSTIVE_COMPLETE = False  # the random layer is not exhaustive
@@ -53,14 +54,14 @@ def strategy(tier):
 
 def exhaustive(tier):
     if tier == "quick":
-        return [("in", i, 8) for i in range(8)]
+        return [("in", i, 32) for i in range(32)]
     return [("in", i, 64) for i in range(64)]
 
 
 def run_job(job):
     _, idx, mod = job
     thorough = mod == 64
-    mo, ms = (4, 4) if thorough else (3, 3)
+    mo, ms = (4, 4) if thorough else (4, 3)
     vals = (0, 1, 2, 3) if thorough else (0, 1, 2)
     hgts = (0, 1, 2, INF) if thorough else (0, 1, INF)
     grid = list(gen.cost_grid(vals, hgts, labelled=False))
